@@ -175,10 +175,10 @@ func copyAllItemProperties(to, from Item) (Item, error) {
 // CopyItemProperties delegates to the correct per type functions for copying
 // properties between matching Activity Objects
 func CopyItemProperties(to, from Item) (Item, error) {
-	if to == nil {
+	if IsNil(to) {
 		return to, fmt.Errorf("nil object to update")
 	}
-	if from == nil {
+	if IsNil(from) {
 		return to, fmt.Errorf("nil object for update")
 	}
 	if !to.GetLink().Equals(from.GetLink(), false) {
